@@ -254,6 +254,26 @@ fn main() {
             }
             println!("{}", serde_json::to_string(&outs).unwrap());
         }
+        "trace" => {
+            // hs trace <harness> <comma separated inputs> k=v ... : one symbolic run, prints the recorded decisions
+            let name = &args[2];
+            let h = reg.iter().find(|h| h.name == *name).expect("unknown harness");
+            let inputs: Vec<i64> = args[3].split(',').filter(|s| !s.is_empty()).map(|s| s.parse().unwrap()).collect();
+            let mut params: BTreeMap<String, i64> = BTreeMap::new();
+            for a in &args[4..] {
+                if let Some((k, v)) = a.split_once('=') {
+                    params.insert(k.to_string(), v.parse().unwrap());
+                }
+            }
+            let p = Params(params);
+            symx::explore::install_panic_hook();
+            let o = symx::run_once(true, &inputs, &|| (h.sym)(&p));
+            println!("abort={:?} panic={:?} vars={}", o.abort, o.panic_msg, o.arena.vars.len());
+            for (j, ev) in o.arena.trace.iter().enumerate() {
+                let pc = symx::solver::inline_path_condition_one(&o.arena, j);
+                println!("{:3} {:?} outcome={} {}", j, ev.kind, ev.outcome, pc.unwrap_or_default());
+            }
+        }
         "replay" => {
             // file: {"harness":..., "params":{...}, "inputs":[...]}
             let txt = std::fs::read_to_string(&args[2]).expect("replay file");
